@@ -27,7 +27,7 @@ ASSUMPTIONS = [
 ]
 PROBES = ["pwlen_1", "pwlen_64", "pwlen_not_dividing_2_20", "pwlen_300", "engine_5", "engine_32", "authpriv",
           "len127_outer_layer", "len128_outer_layer", "len255_outer_layer", "len256_outer_layer", "request_len127_layer",
-          "set_payload", "usmstats_as_data", "report_ctx_echo"]
+          "set_payload", "usmstats_as_data", "report_ctx_echo", "engine_id_with_zero_run", "engine_time_max"]
 shrink_lists: List[tuple] = []
 OPS = ["get", "get", "set", "multiget", "getnext", "bulkget", "walk"]
 BASE = (1, 3, 6, 1, 2, 1, 7)
@@ -58,8 +58,12 @@ def plan_for(tier: str, seed: int, i: int) -> dict:
     eng = b"\x80" + gen.gen_bytes(rng, rng.choice([4, 4, 11, 16, 31, rng.randrange(4, 32)]))
     if rng.random() < 0.12:
         op = rng.choice(["get_usmstat", "walk_usmstats"])   # the agent's own usmStats counters read as ordinary data
+    zrng = rng_for(seed, ID, tier + ":z", i)
+    if zrng.random() < 0.1:
+        eng = b"\x80\x00" + b"\x00" * zrng.choice([10, 12, 13, 24]) + b"\x01"   # legal engine id with a long run of zero octets
+    time0 = zrng.choice([4000, 4000, 4000, 2**31 - 1, 0])                           # incl. the maximum engine time
     return {"prop": ID, "proto": proto, "engine_id": eng, "op": op, "payload": payload, "pwlen": pwlen, "context_name": ctx,
-            "ctx_echo": rng.random() < 0.3, "ctx_other": rng.random() < 0.15}
+            "ctx_echo": rng.random() < 0.3, "ctx_other": rng.random() < 0.15, "time0": time0}
 
 
 def simplify(plan: dict):
@@ -97,7 +101,7 @@ def execute(plan: dict) -> dict:
     if plan["op"] in ("get_usmstat", "walk_usmstats"):
         for k in range(1, 7):
             mib[usm + (k, 0)] = ("c32", 10 + k)
-    agent = w.add_agent(agent_for(proto, mib, engine_id=plan["engine_id"], boots=7, time0=4000))
+    agent = w.add_agent(agent_for(proto, mib, engine_id=plan["engine_id"], boots=7, time0=plan.get("time0", 4000)))
     agent.report_ctx_echo = bool(plan.get("ctx_echo"))
     if plan.get("ctx_other"):
         agent.report_ctx_other = b"\x80\x00\x1f\x88\x04proxied-context"
@@ -203,6 +207,8 @@ def execute(plan: dict) -> dict:
     probes["set_payload"] = int(plan["op"] == "set")
     probes["usmstats_as_data"] = int(plan["op"] in ("get_usmstat", "walk_usmstats"))
     probes["report_ctx_echo"] = int(bool(plan.get("ctx_echo")))
+    probes["engine_id_with_zero_run"] = int(b"\x00" * 10 in plan["engine_id"])
+    probes["engine_time_max"] = int(plan.get("time0") == 2**31 - 1)
     counters = dict(w.net.counters)
     for kk, v in probes.items():
         counters["probe_" + kk] = v
